@@ -359,6 +359,10 @@ def termination(T: Trace, case: Dict[str, Any]) -> Tuple[List[Finding], Optional
             bad.append(("hang-never-waits", f"no progress for {st['idle_s']}s: nodes {st['gated']} are in flight but the scheduler never waits for them (it did not return after all of them were allowed to finish); scheduler at {st['frames'][-3:]}", None))
         else:
             inconclusive = "stall-without-witness"
+    for e in T.ev:
+        if e["k"] == "BLOCKED":
+            bad.append(("dispatched-node-blocked-in-tawazi", f"nodes handed to a worker cannot enter their function while other nodes of the execution are running - they wait inside tawazi: {e['blocked']} (if the running nodes in turn wait for them the call never ends)", None))
+            break
     nblock = sum(1 for e in T.ev if e["k"] == "WAIT" and e.get("blocking"))
     npooled = sum(1 for s in T.enter if s in M.res and M.pooled(s))
     if ex.mode == "ctl" and nblock > 2 * npooled + 2:
